@@ -355,16 +355,41 @@ package tree
 //@   ensures[failure-changes-nothing] result != nil ==> rootHas(t) == old(rootHas(t))
 
 // ---- root look-ups by position and by hash (C08, C09, C12): assumed semantics (A5), texts pinned
+// (the look-ups of a recorded root by position and by hash are proved wrappers as well: the statement's meaning is
+// assumed at the library call, A5; only "no rows" is "not found"; the row read is the row returned)
+//@ ghost var rootLookupNoRows bool
+//@ extern github.com/russross/meddler.QueryRow@tree.(*Tree).GetRootByIndex (conn, dst, query, args)
+//@   requires typeIs(dst, *types.Root) && cast(dst, *types.Root) != nil
+//@   modifies *cast(dst, *types.Root), rootLookupNoRows
+//@   ensures result != errvar("db.ErrNotFound") && ((result != nil && !isErr(result, sql.ErrNoRows)) ==> !isErr(result, errvar("db.ErrNotFound")))
+//@   ensures rootLookupNoRows == (result != nil && isErr(result, sql.ErrNoRows))
+//@   ensures result == nil ==> cast(dst, *types.Root).Index == caller.index && rootHas(caller.t)[caller.index] && cast(dst, *types.Root).Hash == rootHash(caller.t)[caller.index]
 //@ func (t *Tree) GetRootByIndex
 //@   props C08 C09 C12
-//@   trusted
-//@   modifies nothing
-//@   ensures result1 == nil ==> result0.Index == index
+//@   requires t != nil
+//@   modifies rootLookupNoRows
+//@   nocalls
+//@   allowcalls QueryRow Sprintf Is
+//@   ensures[the-root-recorded-at-that-position] result1 == nil ==> result0.Index == index && rootHas(t)[index] && result0.Hash == rootHash(t)[index]
+//@   ensures[not-found-only-when-the-statement-found-no-row] (result1 != nil && isErr(result1, db.ErrNotFound)) == rootLookupNoRows
+//@   assert call:QueryRow arg0 == t.db
 //@   sqltext "SELECT * FROM %s WHERE position = $1;"
+//@ extern github.com/russross/meddler.QueryRow@tree.(*Tree).GetRootByHash (conn, dst, query, args)
+//@   requires typeIs(dst, *types.Root) && cast(dst, *types.Root) != nil
+//@   modifies *cast(dst, *types.Root), rootLookupNoRows
+//@   ensures result != errvar("db.ErrNotFound") && ((result != nil && !isErr(result, sql.ErrNoRows)) ==> !isErr(result, errvar("db.ErrNotFound")))
+//@   ensures rootLookupNoRows == (result != nil && isErr(result, sql.ErrNoRows))
+//@   ensures result == nil ==> cast(dst, *types.Root).Hash == caller.hash
 //@ func (t *Tree) GetRootByHash
 //@   props C08 C12
-//@   trusted
-//@   modifies nothing
+//@   requires t != nil
+//@   modifies rootLookupNoRows
+//@   nocalls
+//@   allowcalls QueryRow Sprintf Is Hex
+//@   ensures[a-recorded-root-with-that-hash] result1 == nil ==> result0 != nil && result0.Hash == hash
+//@   ensures[error-means-nothing] result1 != nil ==> result0 == nil
+//@   ensures[not-found-only-when-the-statement-found-no-row] (result1 != nil && isErr(result1, db.ErrNotFound)) == rootLookupNoRows
+//@   assert call:QueryRow arg0 == t.db
 //@   sqltext "SELECT * FROM %s WHERE hash = $1;"
 
 // the proof served to callers (C08, C09, C12): when every node on the path from the root to the position is stored -
